@@ -20,6 +20,8 @@ QUICK = [
     ("gen-packfile", {"nfiles": 0, "ndirs": 0, "specials": False}, 2),
     ("gen-packdir", {"nfiles": 5, "ndirs": 2, "xattrs": "safe", "hardlinks": True}, 6),
     ("tar2sqfs", {"nfiles": 5, "ndirs": 2}, 8),
+    ("gen-packfile", {"nfiles": 4, "ndirs": 2, "bs": 4096, "overwrite": True}, 4),
+    ("tar2sqfs", {"nfiles": 4, "ndirs": 1, "overwrite": True}, 4),
     ("tar2sqfs", {"nfiles": 4, "wrap": "gzip", "xattrs": True}, 4),
 ]
 
@@ -40,12 +42,15 @@ def read_journal(path):
     return recs
 
 
-def apply_records(recs, k):
-    """file content after the first k records; None = file does not exist"""
-    buf = None
+def apply_records(recs, k, initial=None):
+    """file content after the first k records; None = file does not exist. initial: content the path held before the run (-f)"""
+    buf = None if initial is None else bytearray(initial)
     for op, o, l, payload in recs[:k]:
         if op == "C":
             buf = bytearray()
+        elif op == "O":              # existing file opened without truncation: content survives
+            if buf is None:
+                buf = bytearray()
         elif op == "W":
             if buf is None:
                 buf = bytearray()
@@ -73,7 +78,7 @@ def reader_outcomes(bdir, statefile, cwd):
     return outs
 
 
-def judge(bdir, cd, content, final_outs, final_tree):
+def judge(bdir, cd, content, final_outs, final_tree, final=None):
     """returns None or (clause, detail)"""
     if content is None:
         return None, {"exists": False}
@@ -94,6 +99,12 @@ def judge(bdir, cd, content, final_outs, final_tree):
     for k in outs:
         if outs[k][1] != final_outs[k][1]:
             return ("accepted-but-different", "%s accepts the state and prints something else than for the finished image" % k), info
+    if final is not None:
+        # "the complete, correct image": every byte the finished image uses is there (only the trailing padding may be missing)
+        bu = struct.unpack_from("<Q", final, 40)[0]
+        if bytes(content[:bu]) != bytes(final[:bu]):
+            diff = next((i for i in range(min(len(content), bu)) if content[i] != final[i]), min(len(content), bu))
+            return ("accepted-but-incomplete", "all readers accept the state and print the finished tree, but byte %d of the %d used bytes differs from the finished image" % (diff, bu)), info
     img = sqfsdec.decode(content)
     if not img.ok():
         return ("accepted-but-undecodable", "readers accept, independent decoder says: %s" % img.errors[0]), info
@@ -101,6 +112,16 @@ def judge(bdir, cd, content, final_outs, final_tree):
         return ("accepted-but-different", "decoded tree differs from the finished image"), info
     info["complete"] = True
     return None, info
+
+
+def old_image(bdir, caseseed, kind, prof, d):
+    """a finished image of different input, made by the same tool"""
+    p2 = {k: v for k, v in prof.items() if k != "overwrite"}
+    c2 = pipelines.build_case(bdir, caseseed ^ 0x5a5a5a5a, kind, p2, d)
+    o = pipelines.run_case(bdir, c2, d, "seed 1\nsched rr\nreaddir 0\n", "plain")
+    if o.rc != 0:
+        return None
+    return open(os.path.join(d, c2.out_image), "rb").read()
 
 
 def work(a):
@@ -116,14 +137,22 @@ def work(a):
             plan = "seed %d\nsched rr\nreaddir 0\njournal out %s\n" % (caseseed % 1000003, jp)
             if split:
                 plan += "rate pwrite out short 600\n"
-            o = pipelines.run_case(bdir, case, cd, plan, "plain")
+            old = None
+            if prof.get("overwrite"):
+                # the output path already holds a complete image of OTHER input; the packer is run with -f
+                old = old_image(bdir, caseseed, kind, prof, os.path.join(s, "old"))
+                if old is None:
+                    res["skip"] = "could not build the pre-existing image"
+                    return res
+                case.argv = case.argv[:-1] + ["-f", case.argv[-1]]
+            o = pipelines.run_case(bdir, case, cd, plan, "plain", preexisting=old)
             if o.rc != 0:
                 res["skip"] = "packer failed: %s" % o.stderr[-200:]
                 return res
             final = open(os.path.join(cd, case.out_image), "rb").read()
             recs = read_journal(jp)
             res["records"] = len(recs)
-            if apply_records(recs, len(recs)) != final:
+            if apply_records(recs, len(recs), old) != final:
                 res["err"] = "journal replay does not reproduce the final image"
                 return res
             fimg = sqfsdec.decode(final)
@@ -138,11 +167,11 @@ def work(a):
                 res["err"] = "reader rejects the finished image: %r" % (final_outs,)
                 return res
             prev = object()
-            for k in range(0, len(recs) + 1):
-                content = apply_records(recs, k)
+            for k in range(1 if old is not None else 0, len(recs) + 1):   # with -f the state before the first output call is the old image
+                content = apply_records(recs, k, old)
                 res["states"] += 1
                 key = None if content is None else hashlib.sha256(content).digest()
-                v, info = judge(bdir, cd, content, final_outs, final_tree)
+                v, info = judge(bdir, cd, content, final_outs, final_tree, final)
                 if content is None:
                     res["absent"] += 1
                 elif info.get("complete"):
@@ -156,10 +185,10 @@ def work(a):
             # validate the crash model against reality: really kill the process before mutation k
             r = rng(caseseed, "kill")
             for k in sorted(r.sample(range(1, len(recs) + 1), min(nkill, len(recs)))):
-                o2 = pipelines.run_case(bdir, case, cd, plan + "killat out %d\n" % k, "plain")
+                o2 = pipelines.run_case(bdir, case, cd, plan + "killat out %d\n" % k, "plain", preexisting=old)
                 p = os.path.join(cd, case.out_image)
                 left = open(p, "rb").read() if os.path.exists(p) else None
-                want = apply_records(recs, k - 1)
+                want = apply_records(recs, k - 1, old)
                 if o2.sig != 9:
                     res["kill_mismatch"].append("k=%d: process was not killed (%s)" % (k, o2.verdict))
                 elif (left is None) != (want is None) or (left is not None and bytes(left) != bytes(want)):
@@ -177,14 +206,18 @@ def rerun_state(bdir, casespec, plan, k):
         case = pipelines.build_case(bdir, casespec["seed"], casespec["kind"], casespec["profile"], cd)
         jp = os.path.join(s, "journal")
         plan2 = "\n".join(l if not l.startswith("journal ") else "journal out %s" % jp for l in plan.splitlines()) + "\n"
-        o = pipelines.run_case(bdir, case, cd, plan2, "plain")
+        old = None
+        if casespec["profile"].get("overwrite"):
+            old = old_image(bdir, casespec["seed"], casespec["kind"], casespec["profile"], os.path.join(s, "old"))
+            case.argv = case.argv[:-1] + ["-f", case.argv[-1]]
+        o = pipelines.run_case(bdir, case, cd, plan2, "plain", preexisting=old)
         final = open(os.path.join(cd, case.out_image), "rb").read()
         recs = read_journal(jp)
         fimg = sqfsdec.decode(final)
         with open(os.path.join(cd, "final.sqfs"), "wb") as f:
             f.write(final)
         final_outs = reader_outcomes(bdir, "final.sqfs", cd)
-        v, info = judge(bdir, cd, apply_records(recs, k), final_outs, sqfsdec.tree_summary(fimg))
+        v, info = judge(bdir, cd, apply_records(recs, k, old), final_outs, sqfsdec.tree_summary(fimg), final)
         return v, hashlib.sha256(final).hexdigest()
 
 
